@@ -39,6 +39,23 @@ func TestC02(t *testing.T) {
 		}
 		c02ProgramGroup(r, gid)
 	}
+	// (c0) value moved (or a contract created / destroyed) by a frame that then calls a precompile
+	// and fails: nothing may be minted or burned, no balance may keep the move (shared with C05)
+	fi := 0
+	for rep := 0; rep < r.Cases(2, 40); rep++ {
+		for _, v := range []string{"frame-moved-value", "frame-created-a-contract", "frame-self-destructed"} {
+			for _, q := range []string{"distribution.delegatorWithdrawAddress(query)", "bank.balances(query)", "staking.delegate(tx)"} {
+				for _, endKind := range []string{"revert", "out-of-gas"} {
+					id := fmt.Sprintf("flush/%s/%s/%s/%d", v, q, endKind, rep)
+					fi++
+					if !r.Want(id, fi) {
+						continue
+					}
+					c05Flush(r, id, v, q, endKind)
+				}
+			}
+		}
+	}
 	// (c) a precompile credit inside a frame that fails, to an account the EVM first loads there and
 	// that becomes dirty later in the transaction: nothing may be minted (shared with C05)
 	idx := 0
